@@ -154,7 +154,17 @@ fn exec_case(r: &mut Rng, work: &Path, w: &mut dyn Write, spoof: bool) {
     let os = if cram { if r.chance(2, 3) { Some(OutputStreamControl::Combined) } else { Some(OutputStreamControl::Stdout) } }
              else { r.pick(&[None, Some(OutputStreamControl::Stdout), Some(OutputStreamControl::Stderr), Some(OutputStreamControl::Combined)]).clone() };
     let keep = if cram { Some(true) } else { *r.pick(&[None, Some(true), Some(false)]) };
-    let strip = if r.chance(1, 5) { Some(true) } else { None };
+    let strip = if r.chance(1, 4) { Some(true) } else { None };
+    // with stripping on, mostly text whose only control bytes are colour / style sequences: the class in which the result is decided
+    if strip.is_some() && !spoof && r.chance(3, 4) {
+        for c in cmds.iter_mut() { for wr in c.writes.iter_mut() {
+            let mut v = vec![];
+            for _ in 0..r.range(0, 8) { match r.below(6) {
+                0 => v.extend(b"\x1b[1m"), 1 => v.extend(b"\x1b[0m"), 2 => v.extend(b"\x1b[2;5;0;31;47m"), 3 => v.push(b'\n'), _ => v.push(b'a' + r.below(26) as u8) } }
+            if r.chance(2, 3) && !v.is_empty() { v.push(b'\n'); }
+            wr.bytes = v;
+        } }
+    }
     let mut cfg = TestCaseConfig::empty(); cfg.output_stream = os.clone(); cfg.keep_crlf = keep; cfg.strip_ansi_escaping = strip;
     let tcs: Vec<TestCase> = cmds.iter().map(|c| tc(&render_cmd(c), cfg.clone())).collect();
     let refs: Vec<&TestCase> = tcs.iter().collect();
